@@ -13,10 +13,19 @@ Oracle:
   every run      -> exit status != 0  <=>  an ERROR line was printed;
   cross-tool     -> same verdict and the same multiset of (line, PE code) as check-express.
 Keys: `<fault class> x <tool>|<symptom>`.
+
+Reference-fault matrix (vf/c04_refs.py): one fixed schema, every syntactic CONTEXT (statement kinds of FUNCTION / PROCEDURE /
+RULE / inner FUNCTION bodies, operator operands, entity / type / constant level expressions) x every reference KIND
+(function, procedure, variable, attribute through each qualifier path and each SELECT member mix and order, entity in a
+group qualifier, type / entity names in declarations).  Each case is a pair that differs in ONE name: the control must be
+accepted, the faulted file rejected.  Constructs in which the unchanged tree swallows a fault (open findings) key as
+`undefined reference <construct> x <tool>|accepted`; the fixed matrix is their deterministic probe and the seeded random
+part of the matrix stays out of them.
 """
 LEVEL = 'fault_enumeration'
 from .. import c04_faults as F
 from .. import c04_run as R
+from .. import c04_refs as Q
 from .. import run
 
 PER_FILE = 16
@@ -107,6 +116,55 @@ def run_all(data):
     return [R.run_tool(t, data) for t in R.TOOLS]
 
 
+def ref_matrix(chk, quick):
+    cases = Q.cases(chk.seed, chk.tier)
+    controls = sorted(set(c.valid for c in cases))
+    # every control goes through check-express (the front end all four tools share); the three back ends take every
+    # control in the thorough tier and a seed-rotated eighth of them in the quick tier
+    step = 8 if quick else 1
+    full = set(controls[chk.seed % step::step])
+
+    def run_control(text):
+        return text, [R.run_tool(t, text) for t in (R.TOOLS if text in full else R.TOOLS[:1])]
+    cres = dict(run.pmap(run_control, controls))
+    bres = run.pmap(lambda c: (c, run_all(c.bad)), cases)
+    judged = set()
+    for c, trs in bres:
+        vtrs = cres[c.valid]
+        if c.valid not in judged:
+            judged.add(c.valid)
+            chk.ev(len(vtrs))
+            for tr in vtrs:
+                chk.seen('valid', 'reference control', tr.tool, tr.verdict)
+                chk.count('reference control runs %s: %s' % (tr.tool, tr.verdict))
+                if tr.r.timed_out:
+                    chk.inconc('watchdog fired: %s on control of %s / %s' % (tr.tool, c.context, c.kind))
+            for key, what in judge_valid(vtrs, 'reference control'):
+                chk.violation(key, what, {'input.exp': c.valid}, dict(case=c.describe(), runs=[tr.brief() for tr in vtrs]))
+        cls = c.key_class
+        chk.ev(len(trs))
+        chk.tag('refs family %s' % c.family)
+        chk.tag('refs fault:%s' % c.cls)
+        chk.tag('refs kind:%s' % c.kind)
+        if c.finding:
+            chk.tag('refs open-finding construct:%s' % c.finding)
+        for tr in trs:
+            chk.seen('refs', c.cls, c.context, c.kind, tr.tool)
+            chk.count('reference fault runs %s: %s' % (tr.tool, tr.verdict))
+            if tr.r.timed_out:
+                chk.inconc('watchdog fired: %s on %s / %s' % (tr.tool, c.context, c.kind))
+        for key, what in judge_fault(trs, cls):
+            chk.violation(key, '%s [%s / %s]' % (what, c.context, c.kind), {'input.exp': c.bad, 'valid_control.exp': c.valid},
+                          dict(case=c.describe(), runs=[tr.brief() for tr in trs]))
+        if c.family == 'C' and 'SELECT (a, b, col)' in c.kind and not c.finding and not getattr(chk, '_refs_sampled', False):
+            chk._refs_sampled = True
+            chk.sample(dict(kind='reference fault', case=c.describe(), faulted=[l for l in c.bad.split('\n') if Q.FRESH in l],
+                            runs=[tr.brief() for tr in trs]), limit=6)
+    chk.count('reference contexts', len(set(c.context for c in cases)))
+    chk.count('reference kinds', len(set(c.kind for c in cases)))
+    return len(cases)
+
+
 def main(chk):
     quick = chk.tier == 'quick'
     n_valid, n_multi = (40, 10) if quick else (600, 150)
@@ -173,6 +231,9 @@ def main(chk):
             shown.add(m.cid)
             chk.sample(dict(kind='mutant', mutant=m.describe(), base=m.base.name, runs=[tr.brief() for tr in trs]))
 
+    # ---- reference faults: context x qualifier-path matrix (control + faulted file per case)
+    n_refs = ref_matrix(chk, quick)
+
     # ---- probes
     name, text = PROBE_VALID_NO_ATTR
     trs = run_all(text)
@@ -194,10 +255,15 @@ def main(chk):
     return chk.finish(
         rule='valid files from vf/c04_faults.valid_corpus (seeded; %d of %d multi-schema with USE/REFERENCE) and %d single-fault mutants per file '
              'rotating over %d fault classes; each input x 4 tools; distinct_nontrivial = distinct (fault class, variant, tool) resp. '
-             '(valid kind, tool, verdict) triples judged' % (n_multi, n_valid, PER_FILE, len(F.CLASS_IDS) - 1),
+             '(valid kind, tool, verdict) triples judged; plus %d reference-fault cases of vf/c04_refs.py (fixed matrices context x '
+             'reference kind x qualifier path / SELECT member mix, and seeded picks from the full product), each a control/faulted pair '
+             'differing in one name, faulted file x 4 tools; distinct = (class, context, kind, tool)'
+             % (n_multi, n_valid, PER_FILE, len(F.CLASS_IDS) - 1, n_refs),
         assumptions=['generated valid files are valid EXPRESS and each mutant is invalid by construction (vf/c04_faults.py)',
                      'tools are taken from the plain (RelWithDebInfo) build of the current working tree',
                      'exp2python dies (SIGABRT) on valid schemas (entity attribute: strdup without prototype, C18; renamed USE/REFERENCE item: NULL '
                      'FILE): those runs are reported under the keys "valid single schema / valid multi-schema file x exp2python|signal 6"; its '
                      'success path is observed on the attribute-less probe and on every schema it does not die on',
-                     'wrong argument count in a call is diagnosed by stepcode as a WARNING and is judged by C20 only'])
+                     'wrong argument count in a call is diagnosed by stepcode as a WARNING and is judged by C20 only',
+                     'reference matrix: the control of each case is valid EXPRESS and the faulted file differs from it only by one identifier '
+                     'that is declared nowhere; quick tier runs the three back ends on an eighth of the controls (all go through check-express)'])
